@@ -14,7 +14,7 @@ not have the expected shape, raises ExtractError.
 """
 import re
 
-from extract import src, strip_comments, write, ExtractError, lean_list, fn_body, expr_def
+from extract import src, strip_comments, write, ExtractError, lean_list, fn_body, expr_def, bool_table
 
 
 # control-flow fingerprints of the functions the Lean model mirrors by hand (picked up by
@@ -78,10 +78,11 @@ def _sha1():
         raise ExtractError("crypto_SHA1_Init: count[0] = count[1] = 0 not found")
 
     # round macros R0..R4: boolean function shape and additive constant
+    # the Boolean functions are compared by truth table: any equivalent spelling is the same function
     shapes = {
-        "ch": r"\(\(w&\(x\^y\)\)\^y\)",
-        "parity": r"\(w\^x\^y\)",
-        "maj": r"\(\(\(w\|x\)&y\)\|\(w&x\)\)",
+        "ch": bool_table("(w&x)|(~w&y)", ["w", "x", "y"]),
+        "parity": bool_table("w^x^y", ["w", "x", "y"]),
+        "maj": bool_table("(w&x)|(w&y)|(x&y)", ["w", "x", "y"]),
     }
     expect_shape = {0: "ch", 1: "ch", 2: "parity", 3: "maj", 4: "parity"}
     expect_blk = {0: "blk0", 1: "blk", 2: "blk", 3: "blk", 4: "blk"}
@@ -95,7 +96,7 @@ def _sha1():
         mm = re.fullmatch(r"z\+=(.+?)\+(blk0|blk)\(i\)\+(0x[0-9A-Fa-f]+)\+rol\(v,5\);w=rol\(w,30\);", body)
         if not mm:
             raise ExtractError("sha1.c: macro R%d has an unexpected shape: %s" % (r, body))
-        if not re.fullmatch(shapes[expect_shape[r]], mm.group(1)):
+        if bool_table(mm.group(1), ["w", "x", "y"]) != shapes[expect_shape[r]]:
             raise ExtractError("sha1.c: macro R%d boolean function changed: %s" % (r, mm.group(1)))
         if mm.group(2) != expect_blk[r]:
             raise ExtractError("sha1.c: macro R%d uses %s" % (r, mm.group(2)))
@@ -158,10 +159,10 @@ def _sigmas(fname, text):
 
 
 def _sha2_common(fname, text, compress, nrounds):
-    if expr_def(text, "Ch") != (["x", "y", "z"], "z^(x&(y^z))"):
-        raise ExtractError(fname + ": Ch changed")
-    if expr_def(text, "Maj") != (["x", "y", "z"], "((x|y)&z)|(x&y)"):
-        raise ExtractError(fname + ": Maj changed")
+    for nm, ref in (("Ch", "(x&y)|(~x&z)"), ("Maj", "(x&y)|(x&z)|(y&z)")):
+        d = expr_def(text, nm)
+        if not d or len(d[0]) != 3 or bool_table(d[1], d[0]) != bool_table(ref, ["x", "y", "z"]):
+            raise ExtractError(fname + ": " + nm + " changed")
     body = fn_body(text, compress)
     b = re.sub(r"\s+", "", body)
     if ("W[i]=Gamma1(W[i-2])+W[i-7]+Gamma0(W[i-15])+W[i-16];" not in b
@@ -231,9 +232,19 @@ def _md5():
     for i in (0, 1):
         if not re.search(r"bits\s*\[\s*%d\s*\]\s*=\s*0\s*;" % i, init):
             raise ExtractError("MD5Init: bits[%d] = 0 not found" % i)
-    funs = {"F1": "z^(x&(y^z))", "F2": "F1(z,x,y)", "F3": "x^y^z", "F4": "y^(x|~z)"}
-    for name, shape in funs.items():
-        if expr_def(text, name) != (["x", "y", "z"], shape):
+    # RFC 1321 §3.4: F = xy | ~x z, G = xz | y ~z, H = x^y^z, I = y ^ (x | ~z); compared by truth table
+    funs = {"F1": "(x&y)|(~x&z)", "F2": "(x&z)|(y&~z)", "F3": "x^y^z", "F4": "y^(x|~z)"}
+    f1 = expr_def(text, "F1")
+    for name, ref in funs.items():
+        d = expr_def(text, name)
+        if not d or len(d[0]) != 3:
+            raise ExtractError("md5.c: %s not found" % name)
+        params, e = d
+        mcall = re.fullmatch(r"F1\((\w+),(\w+),(\w+)\)", e)
+        if mcall and f1 and name != "F1":
+            sub = dict(zip(f1[0], mcall.groups()))
+            e = re.sub(r"\b(%s)\b" % "|".join(f1[0]), lambda m: "\0" + sub[m.group(1)], f1[1]).replace("\0", "")
+        if bool_table(e, params) != bool_table(ref, ["x", "y", "z"]):
             raise ExtractError("md5.c: %s changed" % name)
     m = re.search(r"#\s*define\s+MD5STEP\(f,\s*w,\s*x,\s*y,\s*z,\s*data,\s*s\)((?:[^\n]*\\\n)*[^\n]*)", text)
     if not m or re.sub(r"[\s\\]+", "", m.group(1)) != "(w+=f(x,y,z)+data,w=w<<s|w>>(32-s),w+=x)":
